@@ -103,6 +103,22 @@ def verdict3(res):
     return "undoc:%d" % res[0][1] if res[0][1] in UNDOCUMENTED or res[0][1] == 97 else "doc"
 
 
+_MV_OPS = None
+
+
+def mv_ops():
+    global _MV_OPS
+    if _MV_OPS is None:
+        try:
+            _MV_OPS = json.load(open(os.path.join(os.path.dirname(__file__), "mv_ops.json")))
+        except Exception:
+            _MV_OPS = {}
+    return _MV_OPS
+
+
+NO_THREAD_OPS = set()     # ops whose ADAPTER is not thread-safe (warnings.catch_warnings edits process-wide filters)
+
+
 def run_impl(fn, op, args):
     """Run an implementation adapter, marshal exceptions."""
     try:
@@ -368,6 +384,7 @@ class Check:
         self.scratch = os.path.join(BUILD, "run-%d" % os.getpid())
         self.jobs = 16 if tier == "thorough" else 8
         self.probe_b = {}
+        self.thread_cases = {}
 
     def log(self, s):
         self.lines.append(s)
@@ -466,7 +483,37 @@ class Check:
                                 oracle_fail.append((sname, sig, fails[-1][1], a_case, fails[-1][3]))
                                 self.probe_b[sig] = b_case
                                 break
+                    # concurrent callers: the same calls made by several threads at once
+                    n_thr = 0
+                    if cases and not fails and not getattr(prop, "NO_LIVE_PROBE", False):
+                        from harness import liveprobe
+                        pool = [c for c in cases if c[0] not in NO_THREAD_OPS]
+                        tsample = rng.sample(pool, min(len(pool), 12))
+                        if len(tsample) >= 2:
+                            n_thr = len(tsample)
+                            r = liveprobe.thread_probe(prop.impl, run_impl, canon_result, tsample,
+                                                       0.25 if self.tier == "quick" else 1.5)
+                            if r is not None:
+                                sig = "%s/live-object/%s" % (pid, r[0])
+                                fails.append((sig, r[1], r[2], run_impl(prop.impl, r[2][0], r[2][1])))
+                                oracle_fail.append((sname, sig, r[1], r[2], fails[-1][3]))
+                                self.thread_cases[sig] = tsample
+                    # zero-copy callers: memoryview arguments on the ops where the unchanged library treats them like bytes
+                    n_view = 0
+                    if cases and not fails and not getattr(prop, "NO_LIVE_PROBE", False):
+                        from harness import liveprobe
+                        okops = set(mv_ops().get(pid, []))
+                        pool = [c for c in cases if c[0] in okops]
+                        for c_ in rng.sample(pool, min(len(pool), 60 if self.tier == "quick" else 400)):
+                            n_view += 1
+                            r = liveprobe.view_probe(prop.impl, run_impl, canon_result, c_)
+                            if r is not None:
+                                sig = "%s/live-object/%s" % (pid, r[0])
+                                fails.append((sig, r[1], c_, run_impl(prop.impl, c_[0], c_[1])))
+                                oracle_fail.append((sname, sig, r[1], c_, fails[-1][3]))
+                                break
                     cov["streams"][sname] = {"cases": len(cases), "mode": mode, "mismatches": nm, "live_probe_pairs": n_probe,
+                                             "thread_probe_cases": n_thr, "memoryview_probe_cases": n_view,
                                              "oracle_checked": len(ocases), "oracle_failures": len(fails),
                                              "wall_s": round(time.time() - t, 2)}
                     if getattr(cases, "exhaustive", False) or sname.startswith("exh"):
@@ -490,7 +537,9 @@ class Check:
                                               "op": c[0], "args": [list(x) for x in c[1]],
                                               "impl_result": ires, "seed": self.seed,
                                               **({"then_op": self.probe_b[sig][0], "then_args": [list(x) for x in self.probe_b[sig][1]]}
-                                                 if sig in self.probe_b else {})}, True))
+                                                 if sig in self.probe_b else {}),
+                                              **({"thread_cases": [[c_[0], [list(x) for x in c_[1]]] for c_ in self.thread_cases[sig]]}
+                                                 if sig in self.thread_cases else {})}, True))
             if mismatches:
                 broken.append({"kind": "correspondence", "detail": "%d disagreeing cases, first: stream=%s op=%d args=%s model=%s impl=%s" % (
                     len(mismatches), mismatches[0][0], mismatches[0][1][0], [list(x)[:16] for x in mismatches[0][1][1]],
@@ -612,6 +661,23 @@ def replay(prop, path):
         print(json.dumps(payload, indent=1)[:4000])
         return 1
     c = (payload["op"], [list(x) for x in payload["args"]])
+    if payload.get("signature", "").endswith(("/memoryview-input-differs", "/input-buffer-aliased")):
+        from harness import liveprobe
+        r = liveprobe.view_probe(prop.impl, run_impl, canon_result, c)
+        print("replay memoryview argument: op=%d -> %s" % (c[0], r))
+        if r is not None:
+            print("VIOLATION property=%s replay=%s" % (prop.ID, path))
+            return 1
+        return 0
+    if "thread_cases" in payload:
+        from harness import liveprobe
+        tc = [(o, [list(x) for x in a]) for o, a in payload["thread_cases"]]
+        r = liveprobe.thread_probe(prop.impl, run_impl, canon_result, tc, 10.0)
+        print("replay concurrent callers: %d calls x 4 threads for up to 10 s -> %s" % (len(tc), r and r[:2]))
+        if r is not None:
+            print("VIOLATION property=%s replay=%s" % (prop.ID, path))
+            return 1
+        return 0
     if "/live-object/" in payload.get("signature", "") and "then_op" in payload:
         from harness import liveprobe
         r = liveprobe.probe_pair(prop.impl, c, (payload["then_op"], [list(x) for x in payload["then_args"]]))
